@@ -543,6 +543,29 @@ func (l *Loaded) constSetThroughCallers(v ssa.Value, depth int) map[int64]bool {
 	if cs := constSet(v, map[ssa.Value]bool{}); cs != nil {
 		return cs
 	}
+	// the value computed by a new helper: whatever the helper can return
+	if call, k := callOf(v); call != nil && depth <= 3 {
+		if h := newHelperCallee(call); h != nil {
+			if k < 0 {
+				k = 0
+			}
+			out := map[int64]bool{}
+			rs := helperReturns(h, k)
+			if len(rs) == 0 {
+				return nil
+			}
+			for _, hv := range rs {
+				cs := l.constSetThroughCallers(hv, depth+1)
+				if cs == nil {
+					return nil
+				}
+				for kk := range cs {
+					out[kk] = true
+				}
+			}
+			return out
+		}
+	}
 	p := paramOfValue(v)
 	if p == nil || depth > 3 {
 		return nil
